@@ -32,16 +32,21 @@ def mkMails (inSz : Nat) : List Slot → List (List (List UInt8)) → List Mail
   | sl :: _, [] => sl.pre.map (toMail inSz 0)
   | sl :: sls, rs :: rss => sl.pre.map (toMail inSz 0) ++ rs.map (toMail inSz sl.delay) ++ mkMails inSz sls rss
 
+/-- one call.  `scnt` and `xfer` are the state the terminal's mailbox service is in when the call starts: the counter
+of its next mail and the transfer it believes to be under way (a terminal that was used before need not be idle, nor
+is its counter 1: `SdoHistory`) -/
 structure Setup where
   p : Params
   kind : Kind
   cnt : Nat
   sched : List Slot
   objs : List Obj
+  scnt : Nat
+  xfer : Xfer
 deriving Repr, DecidableEq
 
 def Setup.fulls (c : Setup) : List Bool := c.sched.map (·.full)
-def Setup.srv (c : Setup) : Srv := init c.p.outSz c.p.inSz c.objs
+def Setup.srv (c : Setup) : Srv := ⟨c.p.outSz, c.p.inSz, c.objs, c.scnt, c.xfer⟩
 
 /-- what reaches the server: the part of each written message that lies inside the receive mailbox -/
 def requests (c : Setup) (mails : List Mail) : List (List UInt8) :=
@@ -71,6 +76,31 @@ def resultOf (c : Setup) (mails : List Mail) : Result :=
   ⟨tr, o, s.objs, rss⟩
 
 def system (c : Setup) (n : Nat) : Result := resultOf c (mailsAfter c n)
+
+/-- rounds until a round changes nothing any more (at most `fuel` of them) -/
+def settle (c : Setup) : Nat → List Mail → List Mail
+  | 0, mails => mails
+  | fuel + 1, mails =>
+    let next := round c mails
+    if next = mails then mails else settle c fuel next
+
+/-- a bound on the number of exchanges of a call: every exchange after the first moves at least one byte of the
+value written, or of the largest object the terminal holds -/
+def maxLen : List Obj → Nat
+  | [] => 0
+  | o :: os => max o.val.length (maxLen os)
+
+def kindLen : Kind → Nat
+  | .read => 0
+  | .write v => v.length
+
+def rounds (c : Setup) : Nat := 2 + kindLen c.kind + maxLen c.objs
+
+/-- the mails of the settled run -/
+def finalMails (c : Setup) : List Mail := settle c (rounds c) (mailsAfter c 0)
+
+/-- the settled run -/
+def final (c : Setup) : Result := resultOf c (finalMails c)
 
 /-- the object the call is about -/
 def target (c : Setup) (objs : List Obj) : Option (List UInt8) :=
